@@ -89,7 +89,7 @@ package decorator
 //@   at decoratorController.getChildren(c0, p) [C10]: soErr == nil && p == up
 //@   at decoratorController.callHook(c0, p, obs, rel) [C10,C03]: soErr == nil && gcErr == nil && p == up && obs == observed
 //@   at UpdateStatus(ri, ctx, body, opts) [C16,C01]: chErr == nil && body == copy && statusChanged && parentClient.subresourceMap["status"]
-//@   at Update(ri, ctx, body, opts) [C16,C01]: chErr == nil && body == copy && (labelsChanged || annotationsChanged || statusChanged || (syncResult.Finalized && ContainsFinalizer(up, fin)))
+//@   at Update(ri, ctx, body, opts) [C16,C01,C17]: chErr == nil && body == copy && fresh(body) && (labelsChanged || annotationsChanged || statusChanged || (syncResult.Finalized && ContainsFinalizer(up, fin)))
 //@   at Update(ri, ctx, body, opts) [C16,C02]: body.GetName() == up.GetName() && body.GetNamespace() == up.GetNamespace() && body.GetUID() == up.GetUID()
 //@   at Update(ri, ctx, body, opts) [C16]: body.GetKind() == up.GetKind() && body.GetAPIVersion() == up.GetAPIVersion() && body.GetGeneration() == up.GetGeneration() && body.GetDeletionTimestamp() == up.GetDeletionTimestamp()
 //@   at Update(ri, ctx, body, opts) [C16]: ownerLen(body) == ownerLen(up) && (forall j int :: 0 <= j && j < ownerLen(up) ==> ownerAt(body, j) == ownerAt(up, j))
